@@ -324,9 +324,9 @@ def case_solve(ctx, rng):
 
 
 def run(ctx):
-    for _, rng in ctx.cases("qr-svd", ctx.n(7000, 120000)):
+    for _, rng in ctx.cases("qr-svd", ctx.budget(130000, 2500000)):
         ctx.run_case(case_qr_svd, ctx, rng)
-    for _, rng in ctx.cases("eigh", ctx.n(1500, 20000)):
+    for _, rng in ctx.cases("eigh", ctx.budget(28000, 500000)):
         ctx.run_case(case_eigh, ctx, rng)
-    for _, rng in ctx.cases("solve", ctx.n(2000, 20000)):
+    for _, rng in ctx.cases("solve", ctx.budget(36000, 600000)):
         ctx.run_case(case_solve, ctx, rng)
